@@ -290,6 +290,7 @@ func c19Retrieval(outer interface{}, level int, isList bool) (msg, sig string) {
 }
 
 func runC19(c *ev.Ctx) {
+	defer sizeSweep(c, "C19")
 	depth := 4
 	if c.Thorough() {
 		depth = 5
